@@ -198,9 +198,11 @@ def _restore(db, saved):
     shutil.copytree(saved, db)
 
 
-def run_case(case):
-    """case = {"history": [...], "cmd": {...}} -> observations of the implementation."""
+def run_group(group):
+    """group = {"history": [...], "cmds": [cmd, ...]} -> one observation record per command (the state the history
+    leads to is built once and restored before every run)."""
     R = common.scratch("c08")
+    out = []
     try:
         stacks, uds = common.mkstacks(R)
         S, ud = stacks[0], uds["A"]
@@ -209,33 +211,42 @@ def run_case(case):
                 for f in FLAVORS:
                     common.mkprod(S, p, v, flavor=f)
         db = os.path.join(S, "ups_db")
-        for h in case["history"]:
+        for h in group["history"]:
             common.in_child(_child_cmd, S, ud, h, h.get("crash_at"), False)
         saved = os.path.join(R, "saved_db")
         shutil.copytree(db, saved)
         init = snapshot(S)
-        full = common.in_child(_child_cmd, S, ud, case["cmd"], None, True)
-        if full[0] != "ok":
-            return {"init": init, "full": "child " + str(full[:3])}
-        events = full[1]["events"]
-        obs = {"init": init, "events": events, "err": full[1]["err"], "states": []}
-        obs["final"] = snapshot(S, own_pid=full[1]["pid"])
-        obs["final_listing"] = _reader(S, ud)
-        n = len(events)
-        for k in range(n):
+        for cmd in group["cmds"]:
             _restore(db, saved)
-            r = common.in_child(_child_cmd, S, ud, case["cmd"], k, True)
-            if not (r[0] == "died" and (r[1] >> 8) == lib_fstrace.CRASH_STATUS):
-                obs["states"].append({"k": k, "bad_child": str(r[:3])})
-                continue
-            # the killed child's temporary file is the one that was not there before
-            st = snapshot(S)
-            st = _mark_own_tmp(st, init)
-            obs["states"].append({"k": k, "snap": st, "listing": _reader(S, ud)})
-        return obs
+            out.append(_run_cmd(S, ud, db, saved, init, cmd))
+        return out
     finally:
         _LISTINGS.clear()
         common.rmtree(R)
+
+
+def _run_cmd(S, ud, db, saved, init, cmd):
+    full = common.in_child(_child_cmd, S, ud, cmd, None, True)
+    if full[0] != "ok":
+        return {"init": init, "full": "child " + str(full[:3])}
+    events = full[1]["events"]
+    obs = {"init": init, "events": events, "err": full[1]["err"], "states": []}
+    obs["final"] = snapshot(S, own_pid=full[1]["pid"])
+    obs["final_listing"] = _reader(S, ud)
+    for k in range(len(events)):
+        _restore(db, saved)
+        r = common.in_child(_child_cmd, S, ud, cmd, k, True)
+        if not (r[0] == "died" and (r[1] >> 8) == lib_fstrace.CRASH_STATUS):
+            obs["states"].append({"k": k, "bad_child": str(r[:3])})
+            continue
+        # the killed child's temporary file is the one that was not there before
+        st = _mark_own_tmp(snapshot(S), init)
+        obs["states"].append({"k": k, "snap": st, "listing": _reader(S, ud)})
+    return obs
+
+
+def run_case(case):
+    return run_group({"history": case["history"], "cmds": [case["cmd"]]})[0]
 
 
 def _mark_own_tmp(st, init):
@@ -438,19 +449,38 @@ def oracle(cmd, obs, st):
 
 # ---- evaluation ------------------------------------------------------------------------------------------------
 
-def _work(cases):
+def _work(groups):
     lib_records.silence()
-    return [run_case(c) for c in cases]
+    return [run_group(g) for g in groups]
 
 
-def evaluate(ctx, cases, workers=6):
-    nw = max(1, min(workers, len(cases)))
-    chunks = [cases[i::nw] for i in range(nw)]
-    res = parallel_map(_work, chunks, workers=nw) if nw > 1 else [[common.in_child(run_case, c)[1] for c in cases]]
+def evaluate(ctx, cases, workers=None):
+    """cases = [{"history", "cmd"}]; cases with the same history share one construction of the state."""
+    groups, index = [], {}
+    for i, c in enumerate(cases):
+        key = json.dumps(c["history"], sort_keys=True)
+        if key not in index:
+            index[key] = len(groups)
+            groups.append({"history": c["history"], "cmds": [], "ix": []})
+        g = groups[index[key]]
+        g["cmds"].append(c["cmd"])
+        g["ix"].append(i)
+    workers = workers or int(os.environ.get("VERIF_WORKERS") or 6)
+    nw = max(1, min(workers, len(groups)))
+    chunks = [groups[i::nw] for i in range(nw)]
+    if nw > 1:
+        res = parallel_map(_work, chunks, workers=nw)
+    else:
+        r = common.in_child(lambda: [run_group(g) for g in groups])
+        if r[0] != "ok":
+            raise common.InfraError("case runner failed: %s" % (r[:3],))
+        res = [r[1]]
     impl = [None] * len(cases)
     for k, ch in enumerate(res):
-        for j, v in enumerate(ch):
-            impl[k + j * nw] = v
+        for j, obs_list in enumerate(ch):
+            g = groups[k + j * nw]
+            for ix, o in zip(g["ix"], obs_list):
+                impl[ix] = o
     reqs = [{"m": "c08", "atomic": True, "fs": model_fs_input(o["init"]), "cmd": c["cmd"], "flavors": [0, 1]}
             for c, o in zip(cases, impl)]
     answers = ctx.lean.ask_many(reqs)
@@ -540,14 +570,63 @@ def gen_cases(rng, nstates, ncmds):
     return out
 
 
+def enum_states():
+    """Every semantic state of product pa over 2 versions x 2 flavors x 2 tags (324), each reached by a canonical
+    history of real commands, beside a bystander product pb (one declaration, tagged current)."""
+    import itertools
+    per_flavor = []
+    for f in range(2):
+        opts = []
+        for vs in ([], [0], [1], [0, 1]):
+            for tags in itertools.product([None] + vs, repeat=2):
+                opts.append((f, vs, tags))
+        per_flavor.append(opts)
+    for a, b in itertools.product(*per_flavor):
+        hist = [{"op": "declare", "p": 1, "v": 0, "f": 0, "tag": None, "force": False}]
+        for f, vs, tags in (a, b):
+            for v in vs:
+                hist.append({"op": "declare", "p": 0, "v": v, "f": f, "tag": None, "force": False})
+        for f, vs, tags in (a, b):
+            for t, v in enumerate(tags):
+                if v is None:
+                    if vs and t == 0:        # the first declaration was tagged current automatically
+                        hist.append({"op": "untag", "t": 0, "p": 0, "f": f, "v": None})
+                else:
+                    hist.append({"op": "declare", "p": 0, "v": v, "f": f, "tag": t, "force": False})
+        yield hist
+
+
 def run(ctx):
+    import time
     cc = corpus_cases()
     ctx.hist("corpus", len(cc))
     if cc:
         evaluate(ctx, cc)
-    nstates = ctx.n(24, 400)
+    if ctx.tier == "thorough" or ctx.escalated:
+        # every crash point of every command of flavor 0 on pa from every state of the single-product universe
+        # (the states come in flavor-symmetric pairs, so the commands of flavor 1 are covered up to renaming)
+        cmds = [c for c in all_commands() if c["p"] == 0 and c["f"] == 0]
+        reserve = 0.15 * (ctx.deadline - ctx.t0)          # keep some of the budget for the random histories
+        batch, nst, complete = [], 0, True
+        for hist in enum_states():
+            if time.time() > ctx.deadline - reserve:
+                complete = False
+                ctx.note("thorough enumeration stopped by the time budget after %d of 324 states" % nst)
+                break
+            batch += [{"history": hist, "cmd": c} for c in cmds]
+            nst += 1
+            if nst % 12 == 0:
+                evaluate(ctx, batch)
+                batch = []
+        if batch:
+            evaluate(ctx, batch)
+        ctx.hist("enumerated-states", nst)
+        if complete:
+            ctx.note("exhaustive: all 324 states of the single-product universe x %d commands x every crash point" % len(cmds))
+    nstates = ctx.n(24, 120)
     done = 0
-    while done < nstates and not ctx.out_of_time():
+    soft = ctx.t0 + (100 if ctx.tier == "quick" and not ctx.escalated else 1e9)   # keep the quick tier well under 3 minutes
+    while done < nstates and not ctx.out_of_time() and time.time() < soft:
         evaluate(ctx, gen_cases(ctx.rng, 6, ctx.n(8, 24)))
         done += 6
     if ctx.evaluations and ctx.distinct_nontrivial < 20:
@@ -555,6 +634,7 @@ def run(ctx):
 
 
 def replay(ctx, rp):
+    common.import_eups()          # before any scratch stack puts EUPS_PATH into the environment
     c = {"history": rp["input"]["history"], "cmd": rp["input"]["cmd"]}
     before = (len(ctx.failures), len(ctx.disagreements))
     evaluate(ctx, [c], workers=1)
